@@ -19,6 +19,9 @@ func (r *randReader) Read(b []byte) (n int, err error) {
 }
 
 func ReadRand(buf []byte) {
+	if simEnabled && simReadRand(buf) {
+		return
+	}
 	err := readRand(buf)
 	if err != nil {
 		logger.Printf("crypto.ReadRand(%d) => %v", len(buf), err)
